@@ -22,6 +22,10 @@ pub enum Op {
     /// a larger buffer, has_attribute; whatever the builder remembers from being looked at must not
     /// show later
     Measure,
+    /// `scratch.clone_from(&builder)` and carry on with the scratch builder: 0 = the scratch builder
+    /// is new (other class / id), 1 = it already holds more attributes than any program (six, sealed
+    /// and fingerprinted).  Equivalent to `clone()`.
+    CloneFrom(u8),
 }
 
 impl Op {
@@ -35,6 +39,7 @@ impl Op {
             Op::IntoOwned => "OWN".into(),
             Op::Clone => "CLONE".into(),
             Op::Measure => "MEASURE".into(),
+            Op::CloneFrom(k) => format!("CLONEFROM:{k}"),
         }
     }
     pub fn from_text(s: &str) -> Op {
@@ -48,6 +53,7 @@ impl Op {
             "OWN" => Op::IntoOwned,
             "CLONE" => Op::Clone,
             "MEASURE" => Op::Measure,
+            "CLONEFROM" => Op::CloneFrom(p[1].parse().unwrap()),
             _ => panic!("harness: bad op text {s}"),
         }
     }
@@ -160,6 +166,20 @@ pub fn execute(prog: &Prog, mut observe: impl FnMut(usize, &Result<(), WErr>, &M
                 b = b.clone();
                 Ok(())
             }
+            Op::CloneFrom(k) => {
+                let mut scratch = real::builder((prog.class + 1) % 4, prog.method ^ 1, prog.tid ^ 0x5555);
+                if *k == 1 {
+                    for t in [0x8022u16, 0x0006, 0x0014, 0x0015, 0xC001, 0xC002, 0xC003] {
+                        let _ = scratch.add_raw_attribute(RawAttribute::new(AttributeType::new(t), b"scratch").into_owned());
+                    }
+                    let _ = scratch.add_message_integrity(&creds[0], IntegrityAlgorithm::Sha1);
+                    let _ = scratch.add_message_integrity(&creds[0], IntegrityAlgorithm::Sha256);
+                    let _ = scratch.add_fingerprint();
+                }
+                scratch.clone_from(&b);
+                b = scratch;
+                Ok(())
+            }
             Op::Measure => {
                 let n = b.byte_len();
                 let _ = b.build();
@@ -255,7 +275,7 @@ impl RefBuilder {
                 self.attrs.push((wire::FP, buf[l - 4..].to_vec()));
                 true
             }
-            Op::IntoOwned | Op::Clone | Op::Measure => true,
+            Op::IntoOwned | Op::Clone | Op::Measure | Op::CloneFrom(_) => true,
         }
     }
     pub fn bytes(&self) -> Vec<u8> {
